@@ -247,6 +247,9 @@ impl Hist {
                             return Err(self.fail(c, "read-of-missing-object-status", format!("status {st}")));
                         }
                     }
+                    (Some(_), Err((st, _))) if len == 0 && matches!(range, Some(RefRange::Suffix { .. })) && st == 416 => {
+                        // (don't-care region, see below)
+                    }
                     (Some(o), Err((st, code))) => {
                         let want = range.and_then(|r| satisfiable(r, len).map(|_| ())).is_some() || range.is_none();
                         if want {
@@ -267,6 +270,15 @@ impl Hist {
                         let Some((s, e)) = expect else {
                             return Err(self.fail(c, "unsatisfiable-range-served", format!("range {range_text:?} on {len} bytes answered {status}")));
                         };
+                        if range.is_some() && s == e {
+                            // a suffix range on an empty object selects nothing: no Content-Range can describe it;
+                            // an empty 200 (range ignored) is as good as anything (stated don't-care)
+                            if !body.is_empty() {
+                                return Err(self.fail(c, "ranged-read-content", format!("empty object returned {} bytes", body.len())));
+                            }
+                            self.shape.push((5, ki as u8));
+                            return Ok(());
+                        }
                         let want = &o.content[s as usize..e as usize];
                         if body != want {
                             let sig = if range.is_some() { "ranged-read-content" } else { "read-content" };
